@@ -51,8 +51,8 @@ CONF = {
                 thorough=[("include", {"inline_variants": True, "grammar_scale": 0.6}, 1.0)]),
     "C14": dict(kinds={"userfn", "accept", "tree", "consumed"},
                 quick=[("userfn", {}, 1.0)], thorough=[("userfn", {}, 1.0), ("errors", {}, 0.5)]),
-    "C19": dict(kinds={"trace_eq", "trace_balance", "crash", "fuel"},
-                quick=[("trace", {}, 1.0)], thorough=[("trace", {}, 1.0), ("core", {}, 1.0), ("leftrec", {}, 1.0), ("userfn", {}, 1.0)]),
+    "C19": dict(kinds={"trace_eq", "trace_balance", "crash", "fuel", "panic"},
+                quick=[("trace", {"long_inputs": True}, 1.0)], thorough=[("trace", {"long_inputs": True}, 1.0), ("core", {"long_inputs": True}, 1.0), ("leftrec", {}, 1.0), ("userfn", {}, 1.0), ("unicode", {"long_inputs": True, "unicode_heavy": True}, 0.3)]),
 }
 
 
